@@ -6,6 +6,7 @@ import hashlib
 import json
 import os
 import time
+import sys
 import traceback
 from dataclasses import dataclass, field
 from pathlib import Path
@@ -108,6 +109,8 @@ class Ctx:
         relpath, qual = _where(where)
         cons = A.short(construct, 200) if not isinstance(construct, str) else construct
         msg = f"{rid} {relpath}::{qual}: unrecognised construct `{cons}`: {why}"
+        if os.environ.get("PYHFSA_TRACE") and sys.exc_info()[0] is not None:
+            traceback.print_exc()  # analyst's aid only: where in the interpreter the construct was given up on
         self.errors.append(msg)
         self.rules[rid].instances.append((f"{relpath}::{qual}: {cons}", "UNRECOGNISED", why))
 
